@@ -183,10 +183,10 @@ example : ∃ s, Reachable (Buffered.sys { n := 2, size := 2 }) s ∧ (s.pClosed
     that touches P — has finished.  Before the fix the terminal returned right after cancelling the materialisation
     context, with the filler possibly still inside P.Emit; a second materialisation of the same stream value then put two
     goroutines inside the provider (corpus/C02/confined.case). -/
-theorem C02_buffered_confined (hr : Reachable (Buffered.sys cfg) s) (h : s.cons = .ret) :
+theorem C02_buffered_confined (hfix : cfg.fixJoin = true) (hr : Reachable (Buffered.sys cfg) s) (h : s.cons = .ret) :
     s.f = .done ∧ s.emitting = 0 := by
   have hb := Buffered.basic hr
-  have hd := hb.ret_done h
+  have hd := hb.ret_done hfix h
   exact ⟨hd, by simpa [hd] using hb.emitting_eq⟩
 
 /-- non-vacuity: early stop while the filler is inside Emit; the close sequence waits (`cJoin` is not enabled before
@@ -199,6 +199,14 @@ example : ∃ s, Reachable (Buffered.sys { n := 3, size := 2 }) s ∧ (s.cons ==
 example : (Buffered.step { n := 3, size := 2 }
     { (Buffered.init { n := 3, size := 2 }) with cons := .join, term1 := true, f := .inEmit } .cJoin).isNone = true := by
   decide
+
+/-- The earlier code (`fixJoin = false`, before fix f9673b7): the terminal has returned after an early stop and the filler
+    is inside P.Emit. -/
+theorem C02_witness_buffered_unconfined :
+    ∃ s, Reachable (Buffered.sys { n := 3, size := 2, fixJoin := false }) s ∧
+      (s.cons == .ret && s.f == .inEmit && s.emitting == 1) = true :=
+  checkRun_reachable
+    (ls := [.fOpenOk, .fCheck, .fEmitVal, .fSend, .cCheck, .cRecv, .fCheck, .cStop, .cClose2]) (by decide)
 
 end buffered
 
